@@ -206,6 +206,9 @@ func gen(r *hx.Rand, tier string) []json.RawMessage {
 		}
 		out = append(out, hx.J(libIn{Kind: "lib", Cfg: asm.ResetConfig(r, kt[0], kt[1], nops)}))
 	}
+	for _, k := range []string{"wb", "wtwb", "wbdram"} { // directed: filtered flush of several dirty lines
+		out = append(out, hx.J(libIn{Kind: "lib", Cfg: asm.FlushConfig(r, k, r.Range(4, 8))}))
+	}
 	for _, k := range []string{"ideal", "wb", "banked"} { // directed: contended connection
 		out = append(out, hx.J(libIn{Kind: "lib", Cfg: asm.ContendedConfig(r, k, nops)}))
 	}
